@@ -228,3 +228,42 @@ Check eligibility_is_as_stated :
   /\ (forall (local : bool) (code sub : N) (nb : bool),
         gr_applies (reason_of_notification local code sub) nb = nb && (code =? 6) && negb (sub =? 9)).
 Print Assumptions eligibility_is_as_stated.
+
+(* The invariant over histories in which the neighbour has a second connection (either
+   role) registered with the arbiter at any point: opened while the first session is up or
+   down, ending in OpenSent / OpenConfirm before or after the session drops, losing the
+   collision against the Established session, or becoming the next session (with any
+   negotiated GR / LLGR sets), interleaved with every event of the one-connection histories. *)
+Theorem stale_implies_timer_or_eor_two_connections :
+  forall (evs : list cevent),
+    stale_ok_along_c c0 evs = true /\ stale_ok (c_h (c_run c0 evs)) = true.
+Proof. exact C10_stale_implies_timer_or_eor_two_connections. Qed.
+Check stale_implies_timer_or_eor_two_connections :
+  forall (evs : list cevent),
+    stale_ok_along_c c0 evs = true /\ stale_ok (c_h (c_run c0 evs)) = true.
+Print Assumptions stale_implies_timer_or_eor_two_connections.
+
+(* A second connection being registered does not take the drop of the Established session
+   out of helper mode: in every reachable state, whether or not a second connection exists,
+   the eligible drop of a session that negotiated GR arms the restart timer and enters
+   PeerRestarting; and the drop does to the peer state exactly what it does without one. *)
+Theorem second_connection_does_not_suppress_helper_mode :
+  forall (evs : list cevent) (r : reason) (s : session) l rt nb,
+    let c := c_run c0 evs in
+    h_sess (c_h c) = Some s -> s_gr s = Some (l, rt, nb) ->
+    gr_applies r nb = true -> h_admin_down (c_h c) = false ->
+    let c' := c_step c (CBase (HDown r)) in
+    c_h c' = h_step (c_h c) (HDown r)
+    /\ h_rtimer (c_h c') = true /\ is_peer_restarting (h_gr (c_h c')) = true
+    /\ c_sib c' = c_sib c.
+Proof. exact C10_second_connection_does_not_suppress_helper_mode. Qed.
+Check second_connection_does_not_suppress_helper_mode :
+  forall (evs : list cevent) (r : reason) (s : session) l rt nb,
+    let c := c_run c0 evs in
+    h_sess (c_h c) = Some s -> s_gr s = Some (l, rt, nb) ->
+    gr_applies r nb = true -> h_admin_down (c_h c) = false ->
+    let c' := c_step c (CBase (HDown r)) in
+    c_h c' = h_step (c_h c) (HDown r)
+    /\ h_rtimer (c_h c') = true /\ is_peer_restarting (h_gr (c_h c')) = true
+    /\ c_sib c' = c_sib c.
+Print Assumptions second_connection_does_not_suppress_helper_mode.
